@@ -193,6 +193,8 @@ package parse
 // delimiter after the opener: nothing that follows a comment is swallowed by it
 //@   asserts toks: result != nil ==> sentcount(l.tokens) == old(sentcount(l.tokens)) + 3 && sent(l.tokens, old(sentcount(l.tokens)), "token").tokenType == tokenCommentOpen && sent(l.tokens, old(sentcount(l.tokens)) + 1, "token").tokenType == tokenText && sent(l.tokens, old(sentcount(l.tokens)) + 2, "token").tokenType == tokenCommentClose
 //@   at "strings.Index(l.input[l.pos:], delimCloseComment)" first: l.pos >= old(l.pos) + 2
+// an error is raised only for a comment that is not closed (an empty comment {##} is closed)
+//@   asserts closed: result == nil ==> indexof(l.input[old(l.pos) + 2:], "#}") < 0 || indexof(l.input[old(l.pos) + 3:], "#}") < 0
 
 //@ func parse.lexTagOpen
 //@   implements functype:parse.stateFn
@@ -538,6 +540,8 @@ package parse
 //@   ensures ok: err == nil ==> good(r0) && tcur(t) > old(tcur(t))
 
 //@ func parse.(*Tree).parseInnerExpr
+// C04: an operand never continues into operators by itself (a group is an atom: what follows it is the caller's)
+//@   never "t.parseOuterExpr" nocontinue
 // C14: inside delimiters a raw next() / peek() (one that does not skip blanks) never meets a blank - except where a
 // number literal looks for its fraction point (tokens that can merge)
 //@   at? "t.next()" nows: !isWS(tokAt(t, tcur(t)))
@@ -600,6 +604,7 @@ package parse
 //@   at "t.parseOuterExprPrec(resultExpr, min)" filtercont: true
 //@   at "t.parseOuterExprPrec(NewGetAttrExpr(expr, attr, args, nt.Pos), min)" attrcont: true
 //@   at "t.parseOuterExpr(attr)" subscript: nt.value == "["
+//@   never "t.parseOuterExpr(" level0
 //@   asserts@"?" deferred: min > 0 ==> err == nil && r0 == expr
 //@   asserts@tokenOperator looser: err == nil && istype(r0, "*BinaryExpr") && r0 != expr ==> true
 //@   requires tinv(t) && good(expr)
